@@ -34,6 +34,9 @@ ALT = {
 }
 # a separator that also occurs inside tokens: every case lands in the region of finding C06-indent-inside-token
 ALT_RARE = {'lineSeparator': [' ']}
+# the match operators that `*`, `|`, `^`, `$` followed by `=` fuse into (region of C06-op-equals-fusion; `~=` is
+# not among them: the `~` gets its blanks from the `+>~` branch of Out.append, which d39f9c4 then sees)
+FUSED_MATCH = {'SUBSTRINGMATCH': '*=', 'DASHMATCH': '|=', 'PREFIXMATCH': '^=', 'SUFFIXMATCH': '$='}
 NO_KEYWORD_RULES = ('CSSMediaRule', 'CSSPageRule', 'CSSFontFaceRule', 'CSSVariablesRule')
 
 
@@ -427,7 +430,19 @@ class C06(Check):
                 else:
                     out.append((t, v))
             return out
-        if n3(a) == n3(b):
+        def n9(ts):   # region of C06-op-equals-fusion: `* | ^ $` + `=` written as one token when the spacer is empty
+            out = []
+            for t, v in ts:
+                if t in FUSED_MATCH and v == FUSED_MATCH[t]:
+                    out.append(('CHAR', v[0]))
+                    out.append(('CHAR', '='))
+                else:
+                    out.append((t, v))
+            return out
+        if prefs['spacer'] == '' and n9(a) != a and n9(a) == n9(b):
+            ctx.violate('layout preferences change the token sequence', wit,
+                        self.first_diff(a, b), known='C06-op-equals-fusion')
+        elif n3(a) == n3(b):
             ctx.violate('layout preferences change a non-whitespace token', wit,
                         self.first_diff(a, b), known='C06-indent-inside-token')
         elif prefs['selectorCombinatorSpacer'] == '' and n4(a) == n4(b):
@@ -483,21 +498,24 @@ class C06(Check):
                 return out
             return x
 
-        def n8(x):   # region of C06-hash-in-unknown-rule: a HASH token of an unknown at-rule is shortened too
+        def n9(x):   # region of C06-op-equals-fusion: `* | ^ $` + `=` written as one token when the spacer is empty
             if isinstance(x, (list, tuple)):
-                if len(x) == 2 and x[0] == 'HASH' and isinstance(x[1], str):
-                    v = x[1]
-                    if len(v) == 7 and v[1] == v[2] and v[3] == v[4] and v[5] == v[6]:
-                        return ['HASH', '#' + v[1] + v[3] + v[5]]
-                    return list(x)
-                return [n8(y) for y in x]
+                out = []
+                for y in x:
+                    if isinstance(y, (list, tuple)) and len(y) == 2 and isinstance(y[0], str) \
+                            and FUSED_MATCH.get(y[0]) == y[1]:
+                        out.append(['CHAR', y[1][0]])
+                        out.append(['CHAR', '='])
+                    else:
+                        out.append(n9(y))
+                return out
             return x
         # the normalisations whose region predicate holds for this case, applied to both sides
         norms = [('C06-indent-inside-token', n3)]
+        if prefs['spacer'] == '':
+            norms.append(('C06-op-equals-fusion', n9))
         if prefs['selectorCombinatorSpacer'] == '':
             norms.append(('C06-nth-plus-fusion', n4))
-        if prefs['minimizeColorHash']:
-            norms.append(('C06-hash-in-unknown-rule', n8))
 
         def apply(fs, x):
             for _, f in fs:
@@ -663,7 +681,7 @@ class C06(Check):
     # -- Out.append scripts against the real Out class ----------------------------------------------
     VALS = ['+', '>', '~', ',', ':', '{', ';', ')', ']', '/', '=', '}', '[', '(', '-', '*', 'a', 'b c', 'x ', ' ', '', '  ',
             '1px', '"s"', 'f(', '#aabbcc', '#abc', '#aabbcd', ')]', '/=', '+>', '()', '{}', 'a\nb', '\n', 'url(x)', 'a b',
-            '#AABBCC', '}\n', '!important', '@x', '.5', 'é', '\t', 'a\t', 'a\x7fb', 'a\x01', 'b\\ ', '\\ ', 'x\\\\ ', 'c\\  ']
+            '#AABBCC', '}\n', '!important', '|', '^', '$', '*x', '*=', '/*c*/', '**', '@x', '.5', 'é', '\t', 'a\t', 'a\x7fb', 'a\x01', 'b\\ ', '\\ ', 'x\\\\ ', 'c\\  ']
     TYPES = ['COMMENT', 'S', 'STRING', 'URI', 'HASH', 'FUNCTION', 'adjacent-sibling', 'child', 'following-sibling', 'plus',
              'styletext', 'IDENT', 'CHAR', 'CHAR', 'CHAR', None, None, None, 'DIMENSION', 'Value', 'operator', 'COMMA',
              'descendant', 'ATKEYWORD', 'COLOR_VALUE']
@@ -782,19 +800,12 @@ class C06(Check):
             res, _ = im.serialize(sh, prefs)
             if res[0] != 'OK':
                 return True
-            if fid in ('C06-indent-inside-token', 'C06-nth-plus-fusion'):
+            if fid in ('C06-indent-inside-token', 'C06-nth-plus-fusion', 'C06-op-equals-fusion'):
                 q = dict(prefs)
                 for k in O.LAYOUT:
                     q[k] = im.defaults[k]
                 base, _ = im.serialize(sh, q)
                 return O.nontoks(res[1]) != O.nontoks(base[1])
-            if fid == 'C06-hash-in-unknown-rule':
-                leaf = {k: prefs[k] for k in O.LEAF}
-                leaf.update(O.LEAF_FIXED)
-                expected = im.with_prefs(leaf, lambda: O.effect(O.canon(sh), prefs, O.used_uris(sh)))
-                sh2 = im.parse(res[1])
-                got = im.with_prefs(leaf, lambda: O.strip_flags(O.canon(sh2)))
-                return got != expected
         finally:
             im.cu.ser.prefs.useDefaults()
         return True
